@@ -516,18 +516,32 @@ def r175(db, ctx):
         if f is None:
             ctx.fail('R17.5', PY + name, 'wrapper', 'reason=anchor-missing')
             continue
-        R = X.Rec(f)
-        ok = 0
-        for bi, t in f.calls():
-            c = f.callee_short(t) or ''
-            if c.endswith('CountMatrix::to_freq'):
-                a = norm(R.operand(t['args'][1]))
-                if a == ('k', 0.0):
+        # every to_freq reachable from the wrapper through helpers of the binding itself uses the constant pseudocount 0.0
+        # (an arm may also delegate to the sibling constructor Motif::from_counts, which is checked on its own)
+        ok, bad, seen, todo = 0, [], set(), [f]
+        while todo:
+            g = todo.pop()
+            if g.path in seen or len(seen) > 12:
+                continue
+            seen.add(g.path)
+            RG = X.Rec(g)
+            for bi, t in g.calls():
+                c = g.callee_short(t) or ''
+                if c.endswith('CountMatrix::to_freq'):
+                    a = norm(RG.operand(t['args'][1]))
+                    if a == ('k', 0.0):
+                        ok += 1
+                    else:
+                        bad.append(X.show(a, 40))
+                elif name == 'create' and c.endswith('Motif::from_counts'):
                     ok += 1
-            elif name == 'create' and c.endswith('Motif::from_counts'):
-                ok += 1         # the arm delegates to the sibling constructor, which is checked on its own below
-        want = 2 if name == 'create' else 1
-        (ctx.ok if ok == want else ctx.fail)('R17.5', f, f'{name}: to_freq(0.0)', *([[f'{ok} alphabet arm(s)']] if ok == want else [f'to_freq pseudocount is not the constant 0.0 in {want - ok} arm(s)']))
+                elif c.startswith('lightmotif_py::') and not c.endswith(('Motif::from_counts',)):
+                    h = db.fns.get(t.get('resolved') or '') or next((x for x in db.by_short.get(c, []) if x.kind != 'Closure'), None)
+                    if h is not None and h.crate == 'lightmotif_py':
+                        todo.append(h)
+        good = ok >= 1 and not bad
+        (ctx.ok if good else ctx.fail)('R17.5', f, f'{name}: to_freq(0.0)', *([[f'{ok} conversion site(s)']] if good else
+                                      [f'to_freq pseudocount is not the constant 0.0 ({bad})' if bad else 'no count -> frequency conversion reachable from the wrapper']))
 
 
 # derived caches of the Python classes: (class, cached field) -> the field of the *same object* it must be derived from
